@@ -338,7 +338,8 @@ type c16IdleCase struct {
 }
 
 // c16RunIdle: warm up (one task flushed by a tick), idle period, then the quit tick and
-// one Add are made to contend for the executor lock in the order given by the variant.
+// one Add are made to contend for the executor lock in the order given by the variant
+// (variant after-commanded: no quit, see below).
 func c16RunIdle(m *vk.M, idx int, ic c16IdleCase) (class string, ok bool) {
 	desc := fmt.Sprintf("case=%d;%s", idx, vk.JSON(ic))
 	m.Current(desc)
@@ -382,6 +383,17 @@ func c16RunIdle(m *vk.M, idx int, ic c16IdleCase) (class string, ok bool) {
 	t1 := mk(seq)
 	var aWait func() bool
 	switch ic.Variant {
+	case "after-commanded":
+		// no idle quit here: a full batch goes through the commander (the flusher then skips
+		// one tick), one more task stays in the container and only ticks follow
+		aWait, _ = c16Bg(func() {
+			for i := 0; i < ic.Cfg.N; i++ {
+				add(t1)
+				seq++
+				t1 = mk(seq)
+			}
+			add(t1)
+		})
 	case "plain":
 		// quit first, Add afterwards: restart
 		s.tks.offer()
@@ -445,7 +457,13 @@ func c16RunIdle(m *vk.M, idx int, ic c16IdleCase) (class string, ok bool) {
 		return hang("add")
 	}
 	// from here on nobody calls Flush/Wait: ticks alone (or the retiring flusher) must run t1
-	if held, _ := c16TickLiveness(m, desc, s, []c16Task{t1}); !held {
+	mu.Lock()
+	var pending []c16Task
+	for _, a := range adds[1:] {
+		pending = append(pending, a.task)
+	}
+	mu.Unlock()
+	if held, _ := c16TickLiveness(m, desc, s, pending); !held {
 		return "", m.ViolCount() > v0 // a violation: next scenario; undecided: stop (goroutines of an earlier stall are in the way)
 	}
 	created, stopped := s.tks.counts()
@@ -458,6 +476,8 @@ func c16RunIdle(m *vk.M, idx int, ic c16IdleCase) (class string, ok bool) {
 		}
 	}
 	switch {
+	case ic.Variant == "after-commanded":
+		class = "task-after-commanded-batch:" + trig
 	case trig == "quit":
 		class = "add-in-quit-window:executed-by-retiring-flusher"
 	case created > 1:
@@ -489,7 +509,7 @@ func c16RunIdle(m *vk.M, idx int, ic c16IdleCase) (class string, ok bool) {
 }
 
 func TestVerifC16Idle(t *testing.T) {
-	m := vk.New(t, "C16", "idle retirement: warm-up task flushed by ticks alone, virtual clock +11 intervals, then the quit tick and one Add (threshold 1 = hand-off, threshold >1 = stays in the container) contend for the executor lock: tick-first (Add lands between the flusher's empty Flush and its quit decision), add-first, racing (random spin), plain (Add after the quit = restart); afterwards no Flush/Wait: the task must be executed by the retiring flusher or by ticks to the restarted one; non-trivial = observed class (who executed the task, restarted or not)")
+	m := vk.New(t, "C16", "idle retirement: warm-up task flushed by ticks alone, virtual clock +11 intervals, then the quit tick and one Add (threshold 1 = hand-off, threshold >1 = stays in the container) contend for the executor lock: tick-first (Add lands between the flusher's empty Flush and its quit decision), add-first, racing (random spin), plain (Add after the quit = restart), after-commanded (full batch through the commander, one more task, ticks only); afterwards no Flush/Wait: the task must be executed by the retiring flusher or by ticks to the restarted one; non-trivial = observed class (who executed the task, restarted or not)")
 	defer m.Done()
 	timex.VerifFakeClock(time.Hour)
 	defer timex.VerifRealClock()
@@ -500,9 +520,12 @@ func TestVerifC16Idle(t *testing.T) {
 	n := vk.N(360, 6000)
 	quits := int64(0)
 	for idx := 1; idx <= n; idx++ {
-		ic := c16IdleCase{Variant: []string{"tick-first", "add-first", "racing", "tick-first", "racing", "plain"}[idx%6]}
+		ic := c16IdleCase{Variant: []string{"tick-first", "add-first", "racing", "tick-first", "racing", "plain", "after-commanded"}[idx%7]}
 		ic.Cfg.Kind = []string{"bulk", "chunk", "periodical"}[r.Intn(3)]
 		ic.Cfg.N = 1 + r.Intn(3)
+		if ic.Variant == "after-commanded" && ic.Cfg.N == 1 {
+			ic.Cfg.N = 2
+		}
 		if ic.Variant == "racing" {
 			ic.Spin = r.Intn(400)
 		}
